@@ -527,7 +527,9 @@ Section Theorems.
 
   Theorem gennames_only_listed lines tbl k n :
     gn_fold o [] lines = Ok tbl -> In (k, n) tbl ->
-    exists line t p extra, In line lines /\ split_on x20 line = t :: p :: n :: extra /\ k = unvendor p /      str_eqb t s_true = o_standard o /\ n <> s_main /\ o_filter o p = true /      (o_novendor o = true -> has_vendor p = false /\ k = p).
+    exists line t p extra, In line lines /\ split_on x20 line = t :: p :: n :: extra /\ k = unvendor p /\
+      str_eqb t s_true = o_standard o /\ n <> s_main /\ o_filter o p = true /\
+      (o_novendor o = true -> has_vendor p = false /\ k = p).
   Proof.
     intros H Hin. destruct (gennames_table_spec _ _ H) as [Hnd Hl].
     assert (Hk : alookup k tbl = Some n) by (apply In_alookup_NoDup; assumption).
@@ -577,7 +579,8 @@ Section Theorems.
   Theorem gennames_lines_order lines lines' tbl :
     Permutation lines lines' -> NoDup (map fst (gn_entries o lines)) ->
     gn_fold o [] lines = Ok tbl ->
-    exists tbl', gn_fold o [] lines' = Ok tbl' /\ Permutation tbl tbl' /\ gn_printed tbl = gn_printed tbl' /      forall pkg name, file_raw (gn_file pkg name tbl) = file_raw (gn_file pkg name tbl').
+    exists tbl', gn_fold o [] lines' = Ok tbl' /\ Permutation tbl tbl' /\ gn_printed tbl = gn_printed tbl' /\
+      forall pkg name, file_raw (gn_file pkg name tbl) = file_raw (gn_file pkg name tbl').
   Proof.
     intros Hp Hnd H. destruct (gennames_table_spec _ _ H) as [Hndt _].
     apply gn_fold_Ok_inv in H. destruct H as [Hb ->].
@@ -596,5 +599,23 @@ Definition gn_l_a : str := S "true vendor/golang.org/x/net/idna idna".
 Definition gn_l_b : str := S "true golang.org/x/net/idna other".
 
 Lemma gennames_order_matters :
-  Permutation [gn_l_a; gn_l_b] [gn_l_b; gn_l_a] /  gn_fold gn_o_std [] [gn_l_a; gn_l_b] = Ok [(S "golang.org/x/net/idna", S "idna")] /  gn_fold gn_o_std [] [gn_l_b; gn_l_a] = Ok [(S "golang.org/x/net/idna", S "other")].
+  Permutation [gn_l_a; gn_l_b] [gn_l_b; gn_l_a] /\
+  gn_fold gn_o_std [] [gn_l_a; gn_l_b] = Ok [(S "golang.org/x/net/idna", S "idna")] /\
+  gn_fold gn_o_std [] [gn_l_b; gn_l_a] = Ok [(S "golang.org/x/net/idna", S "other")].
 Proof. split; [apply perm_swap|]. split; vm_compute; reflexivity. Qed.
+
+(* the whole run: the only outcomes are "go list failed", the index panic, and a file whose
+   text is gn_text of the table *)
+Lemma gn_run_spec o pkg name golist :
+  gn_run o pkg name golist =
+  match golist with
+  | None => GnGoListFailed
+  | Some out => match gn_packages o out with
+                | Panic m => GnPanic m
+                | Ok tbl => GnWritten tbl (gn_text pkg name tbl)
+                end
+  end.
+Proof.
+  unfold gn_run. destruct golist as [out|]; [|reflexivity].
+  destruct (gn_packages o out) as [tbl|m]; [|reflexivity]. rewrite gn_file_raw. reflexivity.
+Qed.
